@@ -322,3 +322,19 @@ package utils
 //@     assert[C03:abort-closes-the-body-pipe-with-the-error] n == 0 && arg0 == w.bodyReader && arg1 == err
 //@     do n = n + 1
 //@   ensures[C03:abort-once] n == 1
+
+// The pending list the agent works from is decoded from exactly the bytes of this reply's body (bounded to 1 MiB), and
+// only a 200 reply yields ids (C04: nothing is forwarded on the strength of an error page).
+//@ func parseRequestIDs props(C04,C07)
+//@   requires response != nil
+//@   assigns ghost rdPos, ghost rdCalls
+//@   ghost body []byte
+//@   ghost reads int = 0
+//@   call ioutil.ReadAll
+//@     assert[C04:list-read-from-this-replys-body] reads == 0 && arg0 == box(responseBody) && responseBody.R == response.Body && responseBody.N == 1048576
+//@     do body = ret0
+//@     do reads = reads + 1
+//@   call json.Unmarshal
+//@     assert[C04:ids-decoded-from-the-bytes-read] reads == 1 && arg0 == body && response.StatusCode == 200 && len(body) > 0
+//@   ensures[C04:only-a-200-reply-yields-ids] response.StatusCode != 200 ==> r1 != nil && len(r0) == 0
+//@   ensures[C04:empty-body-is-an-empty-list] r1 == nil && len(body) == 0 ==> len(r0) == 0
